@@ -329,6 +329,7 @@ class WriterModel:
         self.cache = {}
         self.lines = {}
         self.truncated = set()
+        self.unwritten = {}     # writer fn id -> {Option field: number of Ok paths that neither know it None nor emit it}
 
     def arg_pieces(self, fn, tname, term, depth=0):
         """pieces a displayed argument contributes"""
@@ -663,13 +664,67 @@ class WriterModel:
         out = set()
         model = self
 
-        on_call = self._mk_on_call(fn)
+        on_call0 = self._mk_on_call(fn)
+        # Option-typed fields of the value being written (for the "set field is written" rule)
+        opt_fields = set()
+        pty = writer_param_type(fn)
+        if pty is not None and pty.get("k") == "adt" and pty["id"] in F.adts and len(F.adts[pty["id"]]["variants"]) == 1:
+            opt_fields = {fl["name"] for fl in F.adts[pty["id"]]["variants"][0]["fields"] if fl["ty"].get("id", "").endswith("option::Option") and "Unsupported" not in fl["ty"].get("s", "")}
+        unwritten = self.unwritten.setdefault(fn.id, {})
+
+        def roots_in(t, acc, depth=0):
+            if not isinstance(t, tuple) or depth > 60:
+                return
+            if t[0] == "f" and t[1] == ("param", 2) and isinstance(t[2], str):
+                acc.add(t[2])
+            for x in t[1:]:
+                if isinstance(x, tuple):
+                    if x and isinstance(x[0], str):
+                        roots_in(x, acc, depth + 1)
+                    else:
+                        for y in x:
+                            roots_in(y, acc, depth + 1)
+
+        def on_call(path, bb, t, name, args):
+            if opt_fields and name and (name.startswith(("write::", "lef21::write::")) or "LefWriter" in name or re.search(r"io::Write::write_fmt$|::write_line$", name)):
+                acc = path.facts.get(("emitted",), frozenset())
+                got = set()
+                for a in args:
+                    roots_in(a, got)
+                if got - acc:
+                    path.facts[("emitted",)] = frozenset(acc | got)
+            return on_call0(path, bb, t, name, args)
 
         def on_return(path):
             # successful paths only: the returned value is Ok(..)
             ret = path.env.get(0)
             if ret and ret[0] == "agg" and str(ret[1]).endswith("::Err"):
                 return
+            if opt_fields:
+                emitted = path.facts.get(("emitted",), frozenset())
+                known_none = set()
+                for k, fv in path.facts.items():
+                    if k[0] == "discr" and len(k) > 1:
+                        root, chain = field_chain(k[1])
+                        if root == ("param", 2) and chain and chain[0] in opt_fields and len([c for c in chain if not c.startswith("as:")]) == 1:
+                            if (fv[0] == "=" and fv[1] == 0) or (fv[0] == "!=" and 1 in fv[1]):
+                                known_none.add(chain[0])
+                    elif k[0] == "val" and isinstance(k[1], tuple) and k[1][0] == "call" and k[1][1] and re.search(r"::(is_some|is_none)$", k[1][1]) and k[1][2]:
+                        root, chain = field_chain(k[1][2][0])
+                        if root == ("param", 2) and chain and chain[0] in opt_fields:
+                            truth = (fv[0] == "=" and fv[1] != 0) or (fv[0] == "!=" and 0 in fv[1])
+                            if truth == k[1][1].endswith("is_none"):
+                                known_none.add(chain[0])
+                # a value test on the field's own payload (`Some(ref pg) if *pg`) is the field deciding for itself
+                for k, fv in path.facts.items():
+                    if k[0] == "val" and isinstance(k[1], tuple):
+                        acc_ = set()
+                        roots_in(k[1], acc_)
+                        known_none |= (acc_ & opt_fields)
+                for fld in opt_fields:
+                    if fld not in emitted and fld not in known_none:
+                        unwritten.setdefault(fld, 0)
+                        unwritten[fld] += 1
             seqs = [[]]
             for ev in path.events:
                 if ev[0] == "ALT":
